@@ -69,7 +69,7 @@ def floors(tier):
         f.update({'subcase:judged': 250, 'probe:strong': 180, 'build:make': 100,
                   'calibration:reference-build': 450,
                   'probe:pair-vs-reference': 50, 'multi:judged': 20,
-                  'mix:judged': 10, 'libvar:judged': 16,
+                  'mix:judged': 10, 'libvar:judged': 16, 'envdir:judged': 12,
                   'libvar:prebuilt-static-beside-shared': 4,
                   'mix:multi-then-single': 6,
                   'distinct_nontrivial': 180, 'lang:c': 120, 'lang:c++': 120})
@@ -80,7 +80,7 @@ def floors(tier):
                   'distinct_nontrivial': 2500, 'compiler:clang': 1200,
                   'lang:c': 1200, 'lang:c++': 1200, 'lang:f95': 100,
                   'mix:judged': 120, 'mix:multi-then-single': 60,
-                  'libvar:judged': 60,
+                  'libvar:judged': 60, 'envdir:judged': 24,
                   'libvar:prebuilt-static-beside-shared': 16})
     return f
 
@@ -332,6 +332,9 @@ def cases(tier, seed):
             yield case
     if not flt or re.search(flt, 'libvar'):
         for case in gen_libvar(tier, seed):
+            yield case
+    if not flt or re.search(flt, 'envdir'):
+        for case in gen_envdir(tier, seed):
             yield case
     if flt:
         subs = [s for s in subs if re.search(flt, '%s %s %s' % (
@@ -895,6 +898,8 @@ def run_case(case):
         return run_mix(case, res)
     if case.get('kind') == 'libvar':
         return run_libvar(case, res)
+    if case.get('kind') == 'envdir':
+        return run_envdir(case, res)
     res.evaluations = len(case['subs'])
     found = run_project(case, res)
     seen = set()
@@ -1480,6 +1485,181 @@ def run_libvar(case, res):
             else:
                 res.violate(('wrong-library-linked', name, 'variant'),
                             dict(wit, stage='probe'))
+        return res
+    finally:
+        core.rmtree(root)
+
+
+# --------------------------------------------------------------------------
+# directories the compiler ALSO knows from its environment
+#
+# The compiler's own environment variables (CPATH, C_INCLUDE_PATH, CPLUS_INCLUDE_PATH,
+# LIBRARY_PATH) and -I words in CPPFLAGS name directories, too.  A directory the script
+# declares (include_dir, system include, lib_dir) must keep its documented effect when one of
+# them names the same directory (configure and build run in the same environment).  One tiny
+# project per variant, because each needs its own environment.  Model: the program builds and prints the header's / library's
+# value; -Werror plus a warning inside a SYSTEM header does not stop the build.  Every variant is
+# first built by hand (textbook flags, the build-time environment): only what that reference
+# achieves is demanded.
+
+ENVDIR = {
+    # name: (kind, extra environment at configure AND build time, reference flags)
+    'sysinc-also-in-CPPFLAGS': ('sysinc', {'CPPFLAGS': '-I@EXT@/edir'},
+                                ['-I@EXT@/edir', '-isystem', '@EXT@/edir']),
+    'sysinc-also-in-CPATH': ('sysinc', {'CPATH': '@EXT@/edir'}, ['-isystem', '@EXT@/edir']),
+    'sysinc-also-in-LANG_INCLUDE_PATH': ('sysinc', {'@LIP@': '@EXT@/edir'},
+                                         ['-isystem', '@EXT@/edir']),
+    'sysinc-other-dir-in-CPATH': ('sysinc', {'CPATH': '@EXT@/other'},
+                                  ['-isystem', '@EXT@/edir']),
+    'sysinc-other-dir-in-CPPFLAGS': ('sysinc', {'CPPFLAGS': '-I@EXT@/other'},
+                                     ['-I@EXT@/other', '-isystem', '@EXT@/edir']),
+    'inc-also-in-CPATH': ('inc', {'CPATH': '@EXT@/edir'}, ['-I@EXT@/edir']),
+    'inc-also-in-LANG_INCLUDE_PATH': ('inc', {'@LIP@': '@EXT@/edir'}, ['-I@EXT@/edir']),
+    'inc-also-in-CPPFLAGS': ('inc', {'CPPFLAGS': '-I@EXT@/edir'}, ['-I@EXT@/edir']),
+    'libdir-also-in-LIBRARY_PATH': ('libdir', {'LIBRARY_PATH': '@EXT@/elib'},
+                                    ['-L@EXT@/elib', '-lvfe']),
+    'libdir-also-in-LDFLAGS': ('libdir', {'LDFLAGS': '-L@EXT@/elib'},
+                               ['-L@EXT@/elib', '-lvfe']),
+}
+
+
+def gen_envdir(tier, seed):
+    compilers = ['gcc'] if tier == 'quick' else ['gcc', 'clang']
+    n = 0
+    for compiler in compilers:
+        for lang in ('c', 'c++'):
+            for name in sorted(ENVDIR):
+                n += 1
+                yield {'kind': 'envdir', 'compiler': compiler, 'lang': lang,
+                       'tag': 'e%03d' % n, 'variant': name}
+
+
+def run_envdir(case, res):
+    compiler, lang, t, name = case['compiler'], case['lang'], case['tag'], case['variant']
+    kind, conf_extra, refflags = ENVDIR[name]
+    build_extra = conf_extra
+    ext = R.LANGS[lang]['ext']
+    cc, c_cc = R.COMPILERS[compiler][lang], R.COMPILERS[compiler]['c']
+    res.evaluations = 1
+    root = core.mkscratch('c16e')
+    src, bld, ref = (os.path.join(root, x) for x in ('src', 'bld', 'ref'))
+    lip = 'C_INCLUDE_PATH' if lang == 'c' else 'CPLUS_INCLUDE_PATH'
+
+    # the declared directories are given as absolute paths outside the source tree (an SDK
+    # somewhere on the machine), or as source-relative names, alternately
+    extdir = os.path.join(root, 'sdk') if (int(t[1:]) + (lang == 'c++')) % 2 else src
+
+    def sub(s):
+        return s.replace('@EXT@', extdir).replace('@SRC@', src).replace('@LIP@', lip)
+    try:
+        os.makedirs(ref)
+        env0 = core.base_env()
+        ext_files = {'other/unrelated.h': '#define UNRELATED 1\n'}
+        files = {}
+        edir = os.path.join(extdir, 'edir') if extdir != src else 'edir'
+        elib = os.path.join(extdir, 'elib') if extdir != src else 'elib'
+        if kind in ('inc', 'sysinc'):
+            # a header that is fine, but not warning-free
+            ext_files['edir/vfe.h'] = ('#define VFE_VALUE 41\n'
+                                   'static int vfe_never_called(void) { return 1; }\n')
+            files[t + '_m' + ext] = ('#include <stdio.h>\n#include "vfe.h"\n'
+                                     'int main(void) { printf("VFP:%s:VALUE=%%d\\n", VFE_VALUE); '
+                                     'return 0; }\n' % t)
+            if kind == 'sysinc':
+                kw = ("includes=[header_directory(%r, system=True)], "
+                      "compile_options=[opts.warning('all', 'error')]" % edir)
+                refc = ['-Wall', '-Werror']
+            else:
+                kw = "includes=[header_directory(%r)]" % edir
+                refc = []
+            refl = []
+            refc = refc + [sub(x) for x in refflags]
+        else:
+            files['elibsrc/v.c'] = 'int vfe_value(void);\nint vfe_value(void) { return 41; }\n'
+            files[t + '_m' + ext] = ('#include <stdio.h>\n#ifdef __cplusplus\nextern "C"\n#endif\n'
+                                     'int vfe_value(void);\n'
+                                     'int main(void) { printf("VFP:%s:VALUE=%%d\\n", vfe_value()); '
+                                     'return 0; }\n' % t)
+            kw = "link_options=[opts.lib_dir(directory(%r)), opts.lib('vfe')]" % elib
+            refc, refl = [], [sub(x) for x in refflags]
+        files['build.bfg'] = ('# C16 environment-directory project %s: %s\n'
+                              'executable(%s, files=[%s], %s)\n'
+                              % (t, name, q(t), q(t + '_m' + ext), kw))
+        proj.write_tree(src, files)
+        proj.write_tree(extdir, ext_files)
+        if kind == 'libdir':
+            os.makedirs(os.path.join(extdir, 'elib'))
+            o = os.path.join(src, 'elibsrc', 'v.o')
+            core.run([c_cc, '-c', os.path.join(src, 'elibsrc', 'v.c'), '-o', o], env=env0,
+                     timeout=60, check=True)
+            core.run(['ar', 'cr', os.path.join(extdir, 'elib', 'libvfe.a'), o], env=env0,
+                     timeout=60, check=True)
+            os.remove(o)
+        cenv = core.base_env(dict({'CC': c_cc, 'CXX': R.COMPILERS[compiler]['c++']},
+                                  **{sub(k): sub(v) for k, v in conf_extra.items()}))
+        benv = core.base_env(dict({'CC': c_cc, 'CXX': R.COMPILERS[compiler]['c++']},
+                                  **{sub(k): sub(v) for k, v in build_extra.items()}))
+        renv = dict(env0, **{sub(k): sub(v) for k, v in build_extra.items()})
+
+        def observe(exe):
+            ob = {'built': os.path.isfile(exe)}
+            if ob['built']:
+                r, out = core.run([exe], env=env0, timeout=60, cwd=os.path.dirname(exe))
+                ob['run_rc'] = r
+                ob['VALUE'] = R.parse_vfp(out, t).get('VALUE')
+            return ob
+
+        # ---- hand-written reference in the build-time environment
+        log = []
+
+        def run(argv):
+            r, out = core.run(argv, cwd=ref, env=renv, timeout=120)
+            log.append({'argv': argv, 'rc': r, 'out': out[-600:]})
+        mo = os.path.join(ref, 'm.o')
+        run([cc] + refc + ['-c', os.path.join(src, t + '_m' + ext), '-o', mo])
+        run([cc, mo] + refl + ['-o', os.path.join(ref, t)])
+        res.ev('calibration:reference-build')
+        model = {'built': True, 'run_rc': 0, 'VALUE': '41'}
+        label = 'envdir %s [%s/%s]' % (name, compiler, lang)
+        if observe(os.path.join(ref, t)) != model:
+            res.exclude('reference-differs-from-model: ' + label)
+            res.ev('calibration:excluded')
+            return res
+        res.ev('envdir:judged')
+        res.ev('subcase:judged')
+        res.ev('lang:' + lang)
+        res.ev('compiler:' + compiler)
+        res.key([compiler, lang, 'envdir', name, extdir != src], True)
+        res.classes.add('envdir:' + name)
+        res.classes.add('envdir:declared-as-' + ('absolute-path' if extdir != src
+                                                 else 'source-relative'))
+        base_w = {'compiler': compiler, 'lang': lang, 'opt': kind, 'val': name,
+                  'place': 'target', 'variant': name, 'tag': t, 'bfg_text': kw,
+                  'declared_as': 'absolute-path' if extdir != src else 'source-relative',
+                  'configure_env': {sub(k): sub(v) for k, v in conf_extra.items()},
+                  'build_env': {sub(k): sub(v) for k, v in build_extra.items()},
+                  'reference_commands': _cmds(log)}
+        rc, cout = proj.configure(src, bld, 'make', env=cenv)
+        res.ev('build:configure')
+        if rc != 0:
+            errs = [ln for ln in cout.splitlines() if ln.startswith('error:')]
+            res.violate(('configure-failed', kind, 'envdir'),
+                        dict(base_w, stage='configure',
+                             error=(errs or cout.strip().splitlines()[-1:] or ['?'])[0][:400]))
+            return res
+        rc2, mout = proj.build(bld, 'make', targets=['all'], extra=['-k'], env=benv, timeout=600)
+        res.ev('build:make')
+        ob = observe(os.path.join(bld, t))
+        res.ev('probe:observed-bfg')
+        res.sample = {'variant': name, 'compiler': compiler, 'lang': lang, 'bfg9000': ob,
+                      'bfg_commands': tag_lines(mout, t, 4)}
+        if ob == model:
+            return res
+        diff = [k for k in model if ob.get(k) != model[k]]
+        res.violate(('build-failed' if not ob['built'] else 'effect-differs', 'envdir', name),
+                    dict(base_w, stage='build' if not ob['built'] else 'probe', differing=diff,
+                         observed={k: ob.get(k) for k in diff},
+                         bfg_commands=tag_lines(mout, t), make_output=mout[-800:]))
         return res
     finally:
         core.rmtree(root)
